@@ -63,6 +63,10 @@ def run(chk):
     if 'DisconnectNeverRaises' not in r0.violated:
         raise core.MachineryError('self-test: the pre-fix model should violate DisconnectNeverRaises')
     chk.extra['prefix_model_violates_DisconnectNeverRaises'] = True
+    rh = chk.tlc('MC_ConnLifecycle', 'ConnLifecycle_halfshut.cfg', must_pass=False)
+    chk.extra['write_half_only_shutdown_model_violates_InterruptLeadsToTermination'] = 'InterruptLeadsToTermination' in rh.violated
+    if 'InterruptLeadsToTermination' not in rh.violated:
+        raise core.MachineryError('self-test: with only the write half shut down a thread blocked in a read must never terminate in the model')
     rc = chk.tlc('MC_ConnLifecycle', 'ConnLifecycle_cross.cfg', must_pass=False)
     chk.extra['observation_NoCrossTeardown_violated_in_model'] = 'NoCrossTeardown' in rc.violated or bool(rc.violated)
 
